@@ -34,13 +34,22 @@ import (
 //	               arch, source ("name" or "name (version)"), maintainer, description, noversion ("1")
 //	apk:           arch, origin, commit, license, maintainer
 //	requirements:  op ("==" default, ">=", "~=", "<=", "==="), extras ("a,b"), marker, hashes ("sha256:..,sha256:..")
-//	gomod:         kind ("" require | "go": Version is the go directive's version, Name ignored),
+//	gomod:         kind ("" require | "go": Version is the go directive's version, Name ignored |
+//	               "replace": a replace directive of its own, Name/Version = the module path and
+//	               version on the left of "=>" (Version "" = every version), replace_name and
+//	               replace_version = the right-hand side; not a package),
 //	               toolchain (only with kind=go, e.g. "go1.22.3"), indirect ("1"),
-//	               replace_name, replace_version (new module; version may be empty for a local path),
-//	               replace_all ("1": the replace directive omits the old version)
+//	               replace_name, replace_version on a require record: a replace directive for
+//	               exactly this requirement (new module; version may be empty for a local path),
+//	               replace_all ("1": that directive omits the old version)
 //	cargo:         source ("registry" default | "git" | "local"), deps ("a,b 1.0")
 //	packagelock:   alias (install name when the package is installed under an alias),
-//	               parent (index, as decimal string, of the record it is nested under), dev, optional, peer
+//	               parent (index, as decimal string, of the record it is nested under), dev, optional, peer,
+//	               dir (v2/v3: the package lives in this directory of the project, e.g. a workspace
+//	               member or a "file:" dependency, and its "packages" key is the directory instead
+//	               of a node_modules path; "name" is written when it differs from the name npm
+//	               derives from the folder), explicit_name ("1": write "name" even when not needed),
+//	               link ("1": with dir, also write the node_modules/<install name> link entry)
 //	composer:      dev ("1": listed in packages-dev), type, reference
 //	gemfile:       section ("GEM" default | "GIT" | "PATH"), platform (e.g. "x86_64-linux"), deps ("rack (~> 2.0),foo")
 //	gradle:        confs ("compileClasspath,runtimeClasspath")
